@@ -346,14 +346,14 @@ Lemma spec_ge2 : forall n0, 2 <= n0 ->
   else tree canon ksub_reps preprune prune n0 a m (n0 - 1) g1 no_cache.
 Proof. intros [|[|k]] H; [lia|lia|reflexivity]. Qed.
 
-Lemma next_first_ge2 : forall n0 fuel, 2 <= n0 ->
-  exists G1, ginv G1 /\ vis G1 = g1 /\
+Lemma next_first_ge2 : forall n0, 2 <= n0 ->
+  exists G1, ginv G1 /\ vis G1 = g1 /\ forall fuel,
     next' fuel (init n0 a m) =
     if preprune g1 || prune g1 then Ok (false, mkState n0 a m false G1 no_cache 0%N [] [])
     else run' fuel (Outer false false) (mkState n0 a m false G1 no_cache 0%N [] []).
 Proof.
-  intros [|[|k]] fuel H; [lia|lia|].
-  eexists. split; [|split; [|unfold next, init, set_one, new_search_graph, reslice; cbn; reflexivity]].
+  intros [|[|k]] H; [lia|lia|].
+  eexists. split; [|split; [|intros fuel; unfold next, init, set_one, new_search_graph, reslice; cbn; reflexivity]].
   - unfold ginv. cbn. auto.
   - reflexivity.
 Qed.
@@ -367,7 +367,7 @@ Proof.
   - (* n >= 2 *)
     rewrite (spec_ge2 n N2).
     destruct calls as [|k]; [discriminate|]. cbn [outputs] in H.
-    destruct (next_first_ge2 n fuel N2) as (G1 & GI & V & NX). rewrite NX in H. clear NX.
+    destruct (next_first_ge2 n N2) as (G1 & GI & V & NX). rewrite NX in H. clear NX.
     destruct (preprune g1 || prune g1); [inversion H; reflexivity|].
     assert (C : exists F, collect' F (Outer false false) (St G1 no_cache 0%N [] []) = Ok L).
     { destruct (run' fuel (Outer false false) (St G1 no_cache 0%N [] [])) as [[b s']| |] eqn:R;
